@@ -587,3 +587,167 @@ func (fi *FuncInfo) callsDeep(n ast.Node) []*ast.CallExpr {
 	})
 	return out
 }
+
+// ---------------------------------------------------------------------------
+// interprocedural helpers
+
+// srcExpr is a defining expression found by valueSources, with the function it belongs to.
+type srcExpr struct {
+	fi   *FuncInfo
+	expr ast.Expr
+}
+
+// valueSources returns the leaf expressions a value may be computed from:
+// it follows every definition of local variables, parameters of helpers that
+// are bound to their (single) call site, and the return expressions of
+// in-module functions (result index idx for multi-value calls). Leaves are
+// expressions that are neither such variables nor such calls.
+func (fi *FuncInfo) valueSources(e ast.Expr) []srcExpr {
+	var out []srcExpr
+	seen := map[ast.Node]bool{}
+	var walk func(f *FuncInfo, e ast.Expr, idx int, depth int)
+	walk = func(f *FuncInfo, e ast.Expr, idx int, depth int) {
+		e = ast.Unparen(e)
+		if e == nil || depth > 8 || seen[e] {
+			return
+		}
+		seen[e] = true
+		if v := f.varOf(e); v != nil && !v.IsField() {
+			ds := f.defs[v]
+			followed := false
+			for _, d := range ds {
+				if d.rhs != nil && (d.kind == "define" || d.kind == "assign" || d.kind == "param") {
+					followed = true
+					walk(f, d.rhs, d.idx, depth+1)
+				}
+			}
+			if followed {
+				return
+			}
+		}
+		if call, ok := e.(*ast.CallExpr); ok && f.C != nil {
+			if cf := f.C.FnOf(f.callee(call)); cf != nil && cf.Decl.Body != nil {
+				k := idx
+				if k < 0 {
+					k = 0
+				}
+				// bind parameters for the duration of the walk when the helper has several call sites
+				undo := cf.bindParams(call)
+				for _, ret := range cf.returnsOf() {
+					if k < len(ret.Results) {
+						walk(cf, ret.Results[k], -1, depth+1)
+					} else if len(ret.Results) == 1 {
+						walk(cf, ret.Results[0], k, depth+1)
+					}
+				}
+				undo()
+				return
+			}
+		}
+		out = append(out, srcExpr{f, e})
+	}
+	walk(fi, e, -1, 0)
+	return out
+}
+
+// bindParams temporarily treats the parameters of fi as defined by the
+// arguments of call (used to look through a helper with several call sites
+// from one particular call). It returns the function that undoes the binding.
+func (fi *FuncInfo) bindParams(call *ast.CallExpr) func() {
+	type sv struct {
+		v  *types.Var
+		ds []defSite
+	}
+	var saved []sv
+	i := 0
+	for _, f := range fi.Decl.Type.Params.List {
+		for _, nm := range f.Names {
+			if v, ok := fi.Info.Defs[nm].(*types.Var); ok && i < len(call.Args) {
+				ds := fi.defs[v]
+				if len(ds) == 1 && ds[0].kind == "param" {
+					saved = append(saved, sv{v, ds})
+					fi.defs[v] = []defSite{{node: ds[0].node, rhs: call.Args[i], idx: -1, kind: "param"}}
+				}
+			}
+			i++
+		}
+	}
+	return func() {
+		for _, s := range saved {
+			fi.defs[s.v] = s.ds
+		}
+	}
+}
+
+// predicateBody returns the single returned expression of a trivial
+// predicate (in-module function or local closure whose body is one return
+// statement) called by call, together with the function that undoes the
+// temporary parameter binding; nil when call is not such a call.
+func (fi *FuncInfo) predicateBody(call *ast.CallExpr) (ast.Expr, func()) {
+	if v := fi.varOf(call.Fun); v != nil {
+		if sd := fi.singleDef(v); sd != nil && sd.idx < 0 {
+			if lit, ok := ast.Unparen(sd.rhs).(*ast.FuncLit); ok && len(lit.Body.List) == 1 {
+				if ret, ok := lit.Body.List[0].(*ast.ReturnStmt); ok && len(ret.Results) == 1 {
+					// bind closure parameters
+					type sv struct {
+						v  *types.Var
+						ds []defSite
+					}
+					var saved []sv
+					i := 0
+					for _, f := range lit.Type.Params.List {
+						for _, nm := range f.Names {
+							if pv, ok := fi.Info.Defs[nm].(*types.Var); ok && i < len(call.Args) {
+								ds := fi.defs[pv]
+								saved = append(saved, sv{pv, ds})
+								fi.defs[pv] = []defSite{{node: f, rhs: call.Args[i], idx: -1, kind: "param"}}
+							}
+							i++
+						}
+					}
+					return ret.Results[0], func() {
+						for _, s := range saved {
+							fi.defs[s.v] = s.ds
+						}
+					}
+				}
+			}
+		}
+	}
+	if fi.C == nil {
+		return nil, nil
+	}
+	cf := fi.C.FnOf(fi.callee(call))
+	if cf == nil || cf.Decl.Body == nil || len(cf.Decl.Body.List) != 1 {
+		return nil, nil
+	}
+	ret, ok := cf.Decl.Body.List[0].(*ast.ReturnStmt)
+	if !ok || len(ret.Results) != 1 {
+		return nil, nil
+	}
+	return ret.Results[0], cf.bindParams(call)
+}
+
+// expandGuards replaces every guard that is a call to a trivial predicate by
+// the atomic conditions of the predicate's body (parameters stay bound until
+// the returned function is called).
+func (fi *FuncInfo) expandGuards(gs []Cond) ([]Cond, func()) {
+	var out []Cond
+	var undos []func()
+	for _, g := range gs {
+		if call, ok := ast.Unparen(g.Expr).(*ast.CallExpr); ok && g.Kind == "bool" {
+			if body, undo := fi.predicateBody(call); body != nil {
+				undos = append(undos, undo)
+				sub := flatten(body, g.Neg, g.At)
+				out = append(out, sub...)
+				continue
+			}
+		}
+		out = append(out, g)
+	}
+	return out, func() {
+		for i := len(undos) - 1; i >= 0; i-- {
+			undos[i]()
+		}
+	}
+}
